@@ -117,7 +117,21 @@ pub fn representatives(c: &Coin, strict: bool) -> Vec<Vec<u8>> {
     v
 }
 
-fn world_for(c: &'static Coin, scripts: &[Vec<u8>], per_tx: usize) -> ChainBuilder {
+/// Merged-mining section for a block (namecoin / dogecoin worlds): the parent chain's coinbase, branches and header carry
+/// their own version, time and scripts - none of which is the block's.
+fn aux_section(seed: u8) -> refmodel::ser::AuxPow {
+    refmodel::ser::AuxPow {
+        parent_coinbase: coinbase(7, seed as u32, vec![pay(seed, 25), TxOut { value: 0, script: script::op_return(b"parent chain") }]),
+        parent_hash: [seed; 32],
+        coinbase_branch: vec![[seed.wrapping_add(1); 32]; 3],
+        coinbase_mask: 5,
+        chain_branch: vec![[seed.wrapping_add(2); 32]],
+        chain_mask: 0,
+        parent_header: refmodel::ser::Header { version: 0x2000_0000, prev: [seed.wrapping_add(3); 32], merkle: [seed.wrapping_add(4); 32], time: 1_400_000_000 + seed as u32 * 7919, bits: 0x1b00ffff, nonce: 42 },
+    }
+}
+
+fn world_for(c: &'static Coin, scripts: &[Vec<u8>], per_tx: usize, auxpow: bool) -> ChainBuilder {
     // interleave address-less and address-bearing outputs so that every transaction has an address-less output BEFORE an
     // address-bearing one (output index != rank among addressed outputs) and vice versa
     let (with, without): (Vec<Vec<u8>>, Vec<Vec<u8>>) = scripts.iter().cloned().partition(|s| script::expect(c, s).address.is_some());
@@ -140,8 +154,16 @@ fn world_for(c: &'static Coin, scripts: &[Vec<u8>], per_tx: usize) -> ChainBuild
     }
     let half = txs.len() / 2;
     let second = txs.split_off(half);
+    if auxpow {
+        cb.version = c.auxpow_from.unwrap() + 1;
+    }
     cb.push(txs);
     cb.push(second);
+    if auxpow {
+        for (k, b) in cb.blocks.iter_mut().enumerate().skip(1) {
+            b.auxpow = Some(aux_section(k as u8 * 16 + 1));
+        }
+    }
     cb
 }
 
@@ -166,7 +188,8 @@ pub fn run_c05_c06(prop: &str) -> Report {
         |w, _i, (c, strict, cbn), acc| {
             let wk = Worker::new(&root, w);
             let scripts = representatives(c, *strict);
-            let chain = world_for(c, &scripts, 4);
+            // on the coins that have merged mining the strict world consists of merged-mined blocks
+            let chain = world_for(c, &scripts, 4, *strict && c.auxpow_from.is_some());
             let world = World::simple(c, &chain.blocks, 0);
             let mut spec = RunSpec::new(c.name, cbn);
             // the file-producing callbacks at trace verbosity (log statements are code too; their arguments are only evaluated
@@ -279,7 +302,17 @@ pub fn run_c16() -> Report {
             let others = representatives(c, true).into_iter().filter(|s| s.first() != Some(&0x6a)).collect::<Vec<_>>();
             let mut cb = ChainBuilder::with_genesis(c);
             let mut txs: Vec<Tx> = Vec::new();
-            for (k, chunk) in payloads.chunks(7).enumerate() {
+            // transactions of 2..18 outputs (not all alike: a split of the outputs over the workers leaves remainders)
+            let mut rest: &[(String, Vec<u8>)] = &payloads;
+            let mut groups: Vec<&[(String, Vec<u8>)]> = Vec::new();
+            let mut gi = 0usize;
+            while !rest.is_empty() {
+                let n = ([1usize, 4, 7, 8, 10, 12, 16, 17, 3, 5][gi % 10]).min(rest.len());
+                groups.push(&rest[..n]);
+                rest = &rest[n..];
+                gi += 1;
+            }
+            for (k, chunk) in groups.into_iter().enumerate() {
                 let mut outs: Vec<TxOut> = chunk.iter().map(|(_, s)| TxOut { value: 0, script: s.clone() }).collect();
                 outs.insert(k % (outs.len() + 1), TxOut { value: 5, script: others[k % others.len()].clone() });
                 txs.push(Tx { version: 1, segwit: false, inputs: vec![TxIn::spend([0xee; 32], k as u32)], outputs: outs, locktime: 0, wide: 0 });
@@ -301,6 +334,7 @@ pub fn run_c16() -> Report {
             // every other case at trace verbosity: the printed lines are the same, the log lines around them are not judged
             let mut spec = RunSpec::new(c.name, "opreturn").range(*s0, *e0);
             spec.verbosity = if _i % 2 == 1 { 3 } else { 0 };
+            spec.threads = [2u32, 3, 4, 1, 16][_i % 5];
             let r = match wk.world_run(&world, &spec) {
                 Ok(r) => r,
                 Err(m) => return acc.machinery(m),
